@@ -311,6 +311,10 @@ def ref_load(ast, resources, main_url, packages=None, env=None, sm=None, pin=Fal
 
 def _ref_load(ast, resources, main_url, packages, env, sm, pinned=None):
     sm = copy.deepcopy(sm) if sm is not None else compile_schema(ast, packages)
+    if env is None:
+        import os
+        env = dict(os.environ)
+
     def reading():
         try:
             yield from model.ref_read_iter(resources, main_url, env=env)
